@@ -10,3 +10,16 @@ class AbsSocket:
 
     def close(self):
         raise NotImplementedError("external")
+
+
+class AbsQueue:
+    """queue.Queue seen from one consumer.  Ghost fields: g_pending (items waiting), g_served (items taken so far)."""
+
+    def empty(self):
+        raise NotImplementedError("external")
+
+    def get(self):
+        raise NotImplementedError("external")
+
+    def put(self, item):
+        raise NotImplementedError("external")
